@@ -293,3 +293,26 @@ Proof.
   intros Hwf Htf Hfl Ht. rewrite (front_vm_sets k Hwf Htf Hfl c). cbn [fst].
   now apply memory_percent_cached.
 Qed.
+
+(* ================================================================ /proc/zoneinfo of any size *)
+(* the watermark sum runs over ALL zones, however long the file is: zones after any prefix of the
+   file (e.g. after its first 32768 bytes) count exactly like the ones before *)
+Lemma low_pages_app zs1 zs2 : low_pages (zs1 ++ zs2) = low_pages zs1 + low_pages zs2.
+Proof.
+  induction zs1 as [|z zs1 IH]; [reflexivity|].
+  cbn [app low_pages]. destruct z; rewrite IH; lia.
+Qed.
+
+Theorem vm_zoneinfo_any_size k zs1 zs2 :
+  wf_kernel k = true -> has_total_free k = true -> float_exact k = true -> k_zone k = Some (zs1 ++ zs2) ->
+  virtual_memory (k_pagesize k) (k_meminfo (k_mem k)) (Some (k_zoneinfo zs1 ++ k_zoneinfo zs2)) = Val (spec_vm k) /\
+  (forall af inf sr, kbytes (k_mem k) "Active(file):" = Some af -> kbytes (k_mem k) "Inactive(file):" = Some inf ->
+     kbytes (k_mem k) "SReclaimable:" = Some sr ->
+     let wl := (low_pages zs1 + low_pages zs2) * k_pagesize k in
+     sp_fallback k = (sp_free k - wl) + ((af + inf) - Z.min ((af + inf) / 2) wl) + (sr - Z.min (sr / 2) wl)).
+Proof.
+  intros Hwf Htf Hfl Hz. split.
+  - pose proof (vm_exact k Hwf Htf Hfl) as E. rewrite Hz in E. cbn [option_map] in E.
+    unfold k_zoneinfo in E. rewrite map_app, concat_app in E. exact E.
+  - intros af inf sr E1 E2 E3 wl. unfold sp_fallback. rewrite E1, E2, E3, Hz, low_pages_app. reflexivity.
+Qed.
